@@ -71,6 +71,11 @@ fn walk(cx: &mut Ctx, v: &Value, r: &RVal, i: usize) -> Result<usize, String> {
 			if n != a.len() {
 				return Err(format!("array at {}: iter_mapped yields {} of {} items", i, n, a.len()));
 			}
+			// any way of consuming the mapped iterator must give the same offsets
+			if a.len() >= 2 && a.len() <= 40 {
+				let want: Vec<(usize, usize)> = idx.iter().enumerate().map(|(k, o)| (*o, &a[k] as *const Value as usize)).collect();
+				cx.checks += crate::monitor::check_iter(&format!("array at {}: iter_mapped", i), &|| a.iter_mapped(cx.cm, i).map(|m| (m.offset, m.value as *const Value as usize)), &want)?;
+			}
 			// the slice implementation too
 			let sl: &[Value] = a.as_slice();
 			let offs: Vec<usize> = sl.iter_mapped(cx.cm, i).map(|m| m.offset).collect();
@@ -107,6 +112,10 @@ fn walk(cx: &mut Ctx, v: &Value, r: &RVal, i: usize) -> Result<usize, String> {
 			if n != o.len() {
 				return Err(format!("object at {}: iter_mapped yields {} of {} entries", i, n, o.len()));
 			}
+			if o.len() >= 2 && o.len() <= 40 {
+				let want: Vec<(usize, usize, usize)> = idx.clone();
+				cx.checks += crate::monitor::check_iter(&format!("object at {}: iter_mapped", i), &|| o.iter_mapped(cx.cm, i).map(|m| (m.offset, m.value.key.offset, m.value.value.offset)), &want)?;
+			}
 			// key-based lookups, for every key present and an absent one
 			let mut keys: Vec<&str> = ro.iter().map(|e| e.0.as_str()).collect();
 			keys.sort();
@@ -125,6 +134,12 @@ fn walk(cx: &mut Ctx, v: &Value, r: &RVal, i: usize) -> Result<usize, String> {
 						return Err(format!("{}: get_mapped does not point at entry {}", what, p));
 					}
 					cx.at(&format!("{}: get_mapped", what), g.0, idx[p].2, FragKind::Value)?;
+				}
+				if pos.len() >= 2 && pos.len() <= 16 {
+					let want: Vec<usize> = pos.iter().map(|&p| idx[p].2).collect();
+					cx.checks += crate::monitor::check_iter(&format!("{}: get_mapped", what), &|| o.get_mapped(cx.cm, i, key).map(|m| m.offset), &want)?;
+					let wante: Vec<usize> = pos.iter().map(|&p| idx[p].0).collect();
+					cx.checks += crate::monitor::check_iter(&format!("{}: get_mapped_entries", what), &|| o.get_mapped_entries(cx.cm, i, key).map(|m| m.offset), &wante)?;
 				}
 				// get_mapped_with_index
 				let got: Vec<(usize, usize)> = o.get_mapped_with_index(cx.cm, i, key).map(|(p, m)| (p, m.offset)).collect();
@@ -616,6 +631,30 @@ pub fn run(cfg: &Config) -> i32 {
 				navigate(&mut rep, &mut rd, "wide-containers", &text);
 			}
 			rep.max("widest_container", n as u64);
+		}
+		rep
+	});
+	total.merge(rep);
+
+	// documents nested 100..260 levels with objects at every depth (index lookup code may switch strategy with depth)
+	let rep = parallel(cfg.threads, 16, |i| {
+		let mut rep = Report::new();
+		let mut rng = Rng::new(seed).fork(0xc11e + i as u64);
+		let mut rd = Reader::new();
+		for depth in [100usize, 127, 128, 129, 130, 200, 260] {
+			let mut r = RVal::Obj(vec![("x".into(), RVal::Num("1".into())), ("y".into(), RVal::Arr(vec![RVal::Null, RVal::Obj(vec![])]))]);
+			for d in 0..depth {
+				r = match (d + i) % 3 {
+					0 => RVal::Arr(vec![r, RVal::Num(d.to_string())]),
+					1 => RVal::Obj(vec![("a".into(), r), ("b".into(), RVal::Bool(true))]),
+					_ => RVal::Obj(vec![("p".into(), RVal::Str("q".into())), ("a".into(), r), ("a".into(), RVal::Null)]),
+				};
+			}
+			let style = WriteStyle { whitespace: rng.below(2) as u8, escapes: 0 };
+			let text = gen::write_doc(&mut rng, &r, &style);
+			rep.distinct_bytes(text.as_bytes());
+			navigate(&mut rep, &mut rd, "deep-documents", &text);
+			rep.max("deepest_navigated_nesting", depth as u64);
 		}
 		rep
 	});
